@@ -213,7 +213,69 @@ type dedupCase struct {
 	NAsGap bool    `json:"nasgap"`
 	// Mode: how the container gets its alphabet (see definiteAlphabet); "" = Ali.Alphabet
 	Mode string `json:"mode"`
+	// Big: a large case in compact form (Ali.Rows is then empty and filled from it by the check)
+	Big *bigRows `json:"big,omitempty"`
 }
+
+// bigRows: many rows drawn from a small pool. Row i holds Pool[Idx[i]] and is named
+// s<(i*NameMul) mod n> (NameMul coprime with n: distinct names, not in sorted order)
+type bigRows struct {
+	Pool    []string `json:"pool"`
+	Idx     []int    `json:"idx"`
+	NameMul int      `json:"namemul"`
+}
+
+func (b *bigRows) rows() []gen.Row {
+	n := len(b.Idx)
+	rows := make([]gen.Row, n)
+	for i, k := range b.Idx {
+		rows[i] = gen.Row{Name: fmt.Sprintf("s%03d", (i*b.NameMul)%n), Seq: b.Pool[k]}
+	}
+	return rows
+}
+
+func gcd(a, b int) int {
+	for b != 0 {
+		a, b = b, a%b
+	}
+	return a
+}
+
+// genBigRows: n rows over a pool of 2..8 short sequences; pool member k becomes available only
+// from row ~k*n/(2*np) on, so that first occurrences are scattered over the first half
+func genBigRows(t *rapid.T, alphabet string, bag bool, sizes []int) *bigRows {
+	w := string(wildcard(alphabet))
+	chars := "AC" + w + "-"
+	np := rapid.IntRange(2, 8).Draw(t, "bigpool")
+	l := rapid.IntRange(1, 4).Draw(t, "bigL")
+	b := &bigRows{}
+	for k := 0; k < np; k++ {
+		lk := l
+		if bag {
+			lk = rapid.IntRange(1, 4).Draw(t, "bigLk")
+		}
+		b.Pool = append(b.Pool, gen.SeqN(t, chars, lk))
+	}
+	n := rapid.SampledFrom(sizes).Draw(t, "bigrows")
+	for i := 0; i < n; i++ {
+		max := (2 * i * np) / n
+		if max > np-1 {
+			max = np - 1
+		}
+		b.Idx = append(b.Idx, rapid.IntRange(0, max).Draw(t, "bigidx"))
+	}
+	muls := []int{7, 11, 13, 17, 19, 23, 29, 31, 37, 1}
+	start := rapid.IntRange(0, len(muls)-1).Draw(t, "bigname")
+	for k := range muls {
+		if m := muls[(start+k)%len(muls)]; gcd(m, n) == 1 {
+			b.NameMul = m
+			break
+		}
+	}
+	return b
+}
+
+var bigRowCounts = []int{13, 13, 14, 16, 17, 20, 25, 33, 50, 64, 100, 200}
 
 func (c dedupCase) mode() string {
 	if c.Mode == "" {
@@ -300,6 +362,12 @@ func genDedup(t *rapid.T) dedupCase {
 	c.Bag = rapid.Bool().Draw(t, "bag")
 	c.NAsGap = rapid.Bool().Draw(t, "nasgap")
 	c.Ali.Alphabet = rapid.SampledFrom([]string{"nt", "aa"}).Draw(t, "alphabet")
+	if rapid.SampledFrom([]int{0, 0, 0, 0, 0, 0, 0, 0, 0, 0, 0, 0, 0, 0, 0, 0, 0, 0, 0, 0, 0, 0, 0, 1}).Draw(t, "big") == 1 {
+		// low-rate class: 13..200 rows
+		c.Big = genBigRows(t, c.Ali.Alphabet, c.Bag, bigRowCounts)
+		c.Mode = rapid.SampledFrom([]string{"", "", "unknown", "auto"}).Draw(t, "mode")
+		return c
+	}
 	c.Ali.Rows = genRows(t, c.Ali.Alphabet, c.Bag, 10, 12)
 	c.Mode = rapid.SampledFrom([]string{"", "", "", "unknown", "unknown", "both-ctor", "auto", "auto", "auto"}).Draw(t, "mode")
 	if c.Mode == "both-ctor" && c.Bag {
@@ -403,6 +471,9 @@ func classifyDedup(o *pbt.Outcome, rows []gen.Row, nAsGap bool, wild string) {
 }
 
 func checkDedup(c dedupCase) (o pbt.Outcome, err error) {
+	if c.Big != nil {
+		c.Ali.Rows = c.Big.rows()
+	}
 	sb := buildBag(c)
 	rows := c.Ali.Rows
 	if !gen.SameRows(gen.Snapshot(sb), rows) {
@@ -467,6 +538,12 @@ func checkDedup(c dedupCase) (o pbt.Outcome, err error) {
 	if open {
 		o.Class("wildcard-open(bag=%v)", c.Bag)
 	}
+	switch {
+	case len(rows) >= 100:
+		o.Class("large:rows>=100,bag=%v", c.Bag)
+	case len(rows) > 12:
+		o.Class("large:rows 13..99,bag=%v", c.Bag)
+	}
 	return o, nil
 }
 
@@ -527,6 +604,89 @@ func TestDedupExhaustive(t *testing.T) {
 
 type compressCase struct {
 	Ali gen.Ali `json:"ali"`
+	// Big: a long alignment in compact form (Ali.Rows is then empty and filled from it by the check)
+	Big *bigCols `json:"big,omitempty"`
+}
+
+// bigCols: a long alignment. Column j holds the pattern Pool[Cycle[j mod len(Cycle)]], except the
+// columns Over[k][0], which hold Pool[Over[k][1]]; rows are named r0, r1, ...
+type bigCols struct {
+	Pool  []string `json:"pool"`
+	Cycle []int    `json:"cycle"`
+	L     int      `json:"l"`
+	Over  [][2]int `json:"over"`
+}
+
+func (b *bigCols) ali() gen.Ali {
+	n := len(b.Pool[0])
+	cols := make([]int, b.L)
+	for j := range cols {
+		cols[j] = b.Cycle[j%len(b.Cycle)]
+	}
+	for _, ov := range b.Over {
+		cols[ov[0]] = ov[1]
+	}
+	a := gen.Ali{Alphabet: "nt"}
+	for i := 0; i < n; i++ {
+		row := make([]byte, b.L)
+		for j, k := range cols {
+			row[j] = b.Pool[k][i]
+		}
+		a.Rows = append(a.Rows, gen.Row{Name: fmt.Sprintf("r%d", i), Seq: string(row)})
+	}
+	return a
+}
+
+// genBigCols: 2..6 rows, a pool of 2..8 patterns (some derived from others by one change), a cycle
+// of 1..40 pattern indices so that every stretch of a few hundred sites holds several patterns, a
+// few single-site overrides near the positions 0, 1023/1024/1025, 2047/2048 and L-1 (patterns that
+// occur in one stretch only), and lengths at and around multiples of 1024
+func genBigCols(t *rapid.T, lengths []int, maxLen int) *bigCols {
+	chars := rapid.SampledFrom([]string{"AC", "ACGT", "AC-N"}).Draw(t, "bigchars")
+	n := rapid.IntRange(2, 6).Draw(t, "bigrows")
+	np := rapid.IntRange(2, 8).Draw(t, "bigpool")
+	b := &bigCols{}
+	for len(b.Pool) < np {
+		if len(b.Pool) == 0 || rapid.Bool().Draw(t, "bigfresh") {
+			b.Pool = append(b.Pool, gen.SeqN(t, chars, n))
+			continue
+		}
+		p := []byte(b.Pool[rapid.IntRange(0, len(b.Pool)-1).Draw(t, "bigfrom")])
+		p[rapid.IntRange(0, n-1).Draw(t, "bigpos")] = chars[rapid.IntRange(0, len(chars)-1).Draw(t, "bigc")]
+		b.Pool = append(b.Pool, string(p))
+	}
+	inCycle := rapid.IntRange(1, np).Draw(t, "bigincycle")
+	lc := rapid.IntRange(1, 40).Draw(t, "bigcycle")
+	for k := 0; k < lc; k++ {
+		b.Cycle = append(b.Cycle, rapid.IntRange(0, inCycle-1).Draw(t, "bigcyc"))
+	}
+	b.L = rapid.SampledFrom(lengths).Draw(t, "bigL")
+	if b.L == 0 {
+		b.L = rapid.IntRange(1025, maxLen).Draw(t, "bigLfree")
+	}
+	b.Over = [][2]int{}
+	for k := rapid.IntRange(0, 6).Draw(t, "bigover"); k > 0; k-- {
+		pos := rapid.SampledFrom([]int{0, 1, 1022, 1023, 1024, 1025, 2047, 2048, 2049, b.L - 2, b.L - 1, -1}).Draw(t, "bigoverpos")
+		if pos < 0 || pos >= b.L {
+			pos = rapid.IntRange(0, b.L-1).Draw(t, "bigoverfree")
+		}
+		b.Over = append(b.Over, [2]int{pos, rapid.IntRange(0, np-1).Draw(t, "bigoverpat")})
+	}
+	return b
+}
+
+var bigColLengths = []int{1023, 1024, 1025, 2047, 2048, 2049, 3072, 3073, 4096, 5000, 0, 0, 0}
+
+// showRows: gen.Show with long rows cut
+func showRows(rows []gen.Row) string {
+	if len(rows) == 0 || len(rows[0].Seq) <= 120 {
+		return gen.Show(rows)
+	}
+	var sb strings.Builder
+	for _, r := range rows {
+		fmt.Fprintf(&sb, "%s=%s...(%d) ", r.Name, r.Seq[:60], len(r.Seq))
+	}
+	return sb.String()
 }
 
 func columnsOf(rows []gen.Row) []string {
@@ -596,6 +756,10 @@ func genPatterns(t *rapid.T, chars string, maxRows, maxLen int) gen.Ali {
 }
 
 func genCompress(t *rapid.T) compressCase {
+	if rapid.SampledFrom([]int{0, 0, 0, 0, 0, 0, 0, 0, 0, 0, 0, 0, 0, 0, 0, 0, 0, 0, 0, 0, 0, 0, 0, 0, 0, 0, 0, 0, 0, 0, 0, 0, 0, 0, 0, 0, 0, 0, 0, 1}).Draw(t, "big") == 1 {
+		// low-rate class: 1 023..5 000 sites
+		return compressCase{Big: genBigCols(t, bigColLengths, 5000)}
+	}
 	chars := "AC"
 	alphabet := "nt"
 	switch rapid.IntRange(0, 4).Draw(t, "chars") {
@@ -611,7 +775,7 @@ func genCompress(t *rapid.T) compressCase {
 	}
 	a := genPatterns(t, chars, 8, 14)
 	a.Alphabet = alphabet
-	return compressCase{a}
+	return compressCase{Ali: a}
 }
 
 // judgeCompress: weights and compressed rows against the original rows
@@ -734,6 +898,9 @@ func classifyCompress(o *pbt.Outcome, rows []gen.Row) {
 }
 
 func checkCompress(c compressCase) (o pbt.Outcome, err error) {
+	if c.Big != nil {
+		c.Ali = c.Big.ali()
+	}
 	al := gen.MustBuild(c.Ali)
 	rows := c.Ali.Rows
 	if !gen.SameRows(gen.Snapshot(al), rows) {
@@ -745,7 +912,10 @@ func checkCompress(c compressCase) (o pbt.Outcome, err error) {
 		return o, fmt.Errorf("Length() = %d after compression, %d weights", al.Length(), len(weights))
 	}
 	if err = judgeCompress(rows, got, weights); err != nil {
-		return o, fmt.Errorf("%v\n before: %s\n after : %s weights %v", err, gen.Show(rows), gen.Show(got), weights)
+		if len(weights) > 40 {
+			weights = weights[:40]
+		}
+		return o, fmt.Errorf("%v\n before: %s\n after : %s weights %v", err, showRows(rows), showRows(got), weights)
 	}
 	for _, r := range got {
 		if s, ok := al.GetSequence(r.Name); !ok || s != r.Seq {
@@ -760,6 +930,14 @@ func checkCompress(c compressCase) (o pbt.Outcome, err error) {
 	}
 	classifyCompress(&o, rows)
 	o.Class("alphabet=%s", c.Ali.Alphabet)
+	if L := len(rows[0].Seq); L > 1024 {
+		o.Class("large:sites>1024")
+		if L%1024 <= 1 {
+			o.Class("large:sites at a multiple of 1024 (+0/+1)")
+		}
+	} else if L >= 1023 {
+		o.Class("large:sites 1023..1024")
+	}
 	return o, nil
 }
 
@@ -787,7 +965,7 @@ func TestCompressExhaustive(t *testing.T) {
 					}
 					rows[i] = gen.Row{Name: fmt.Sprintf("r%d", i), Seq: string(b)}
 				}
-				if !yield(compressCase{gen.Ali{Rows: rows, Alphabet: "nt"}}) {
+				if !yield(compressCase{Ali: gen.Ali{Rows: rows, Alphabet: "nt"}}) {
 					return
 				}
 			}
@@ -817,6 +995,9 @@ type cliCase struct {
 	WithLog   bool      `json:"withlog"`   // -l / --weight-out given
 	ToFile    bool      `json:"tofile"`    // -o given
 	Ragged    bool      `json:"ragged"`    // aligned input whose last row is one residue short: must be refused
+	// large inputs in compact form (Rows is then empty and filled by the check)
+	BigD *bigRows `json:"bigdedup,omitempty"`
+	BigC *bigCols `json:"bigcompress,omitempty"`
 }
 
 func TestCLI(t *testing.T) {
@@ -830,6 +1011,23 @@ func TestCLI(t *testing.T) {
 		c.Alphabet = rapid.SampledFrom([]string{"nt", "aa"}).Draw(t, "alphabet")
 		c.WithLog = rapid.IntRange(0, 4).Draw(t, "withlog") != 0
 		c.ToFile = rapid.Bool().Draw(t, "tofile")
+		if rapid.SampledFrom([]int{0, 0, 0, 0, 0, 0, 0, 0, 0, 0, 0, 1}).Draw(t, "big") == 1 {
+			// low-rate class: more than 12 rows / more than 1024 sites, alphabet given explicitly
+			c.AlphaFlag = c.Alphabet
+			if c.Cmd == "dedup" {
+				c.Unaligned = rapid.Bool().Draw(t, "unaligned")
+				c.NAsGap = rapid.Bool().Draw(t, "nasgap")
+				if c.Unaligned {
+					c.AlphaFlag = ""
+					c.Alphabet = "nt" // detection of {A,C,N,-} is open: judged under every reading
+				}
+				c.BigD = genBigRows(t, c.Alphabet, c.Unaligned, []int{13, 14, 17, 20, 33, 60})
+			} else {
+				c.Alphabet, c.AlphaFlag = "nt", "nt"
+				c.BigC = genBigCols(t, []int{1023, 1024, 1025, 2048, 2049, 0}, 2100)
+			}
+			return c
+		}
 		if c.Cmd == "dedup" {
 			c.Unaligned = rapid.Bool().Draw(t, "unaligned")
 			c.NAsGap = rapid.Bool().Draw(t, "nasgap")
@@ -880,6 +1078,14 @@ func TestCLI(t *testing.T) {
 		}
 		return c
 	}, func(c cliCase) (o pbt.Outcome, err error) {
+		if c.BigD != nil {
+			c.Rows = c.BigD.rows()
+			o.Class("large:dedup rows>12")
+		}
+		if c.BigC != nil {
+			c.Rows = c.BigC.ali().Rows
+			o.Class("large:compress sites>=1023")
+		}
 		in := cli.TempFile(dir, ".fa", cli.Fasta(c.Rows))
 		logf := cli.TempFile(dir, ".log", "")
 		outf := cli.TempFile(dir, ".out", "")
@@ -910,13 +1116,13 @@ func TestCLI(t *testing.T) {
 		}
 		if c.Ragged {
 			if r.Exit == 0 {
-				return o, fmt.Errorf("goalign %v: rows of different lengths accepted with status 0\n input: %s", args, gen.Show(c.Rows))
+				return o, fmt.Errorf("goalign %v: rows of different lengths accepted with status 0\n input: %s", args, showRows(c.Rows))
 			}
 			o.Class("refused:ragged-alignment")
 			return o, nil
 		}
 		if r.Exit != 0 {
-			return o, fmt.Errorf("goalign %v: exit %d, stderr %q\n input: %s", args, r.Exit, r.Stderr, gen.Show(c.Rows))
+			return o, fmt.Errorf("goalign %v: exit %d, stderr %q\n input: %s", args, r.Exit, r.Stderr, showRows(c.Rows))
 		}
 		out := r.Stdout
 		if c.ToFile {
@@ -958,7 +1164,7 @@ func TestCLI(t *testing.T) {
 				groups = [][]string{}
 			}
 			if err = judgeDedup(&o, c.Rows, wilds, got, groups); err != nil {
-				return o, fmt.Errorf("goalign %v: %v\n input: %s", args, err, gen.Show(c.Rows))
+				return o, fmt.Errorf("goalign %v: %v\n input: %s", args, err, showRows(c.Rows))
 			}
 			classifyDedup(&o, c.Rows, c.NAsGap, wilds[0])
 			o.Class("dedup:nasgap=%v,alphabet-flag=%q", c.NAsGap, c.AlphaFlag)
@@ -975,7 +1181,7 @@ func TestCLI(t *testing.T) {
 					}
 				}
 				if err = judgeCompress(c.Rows, got, weights); err != nil {
-					return o, fmt.Errorf("goalign %v: %v\n input: %s\n output: %s weights %v", args, err, gen.Show(c.Rows), gen.Show(got), weights)
+					return o, fmt.Errorf("goalign %v: %v\n input: %s\n output: %s weights %v", args, err, showRows(c.Rows), showRows(got), weights)
 				}
 			} else {
 				// without the weight file: the set of patterns, each once, names and order
@@ -991,7 +1197,7 @@ func TestCLI(t *testing.T) {
 					weights = append(weights, cnt[col])
 				}
 				if err = judgeCompress(c.Rows, got, weights); err != nil {
-					return o, fmt.Errorf("goalign %v: %v\n input: %s\n output: %s", args, err, gen.Show(c.Rows), gen.Show(got))
+					return o, fmt.Errorf("goalign %v: %v\n input: %s\n output: %s", args, err, showRows(c.Rows), showRows(got))
 				}
 			}
 			classifyCompress(&o, c.Rows)
